@@ -690,6 +690,7 @@ func TestVerifC19NUMAReplay(t *testing.T) {
 		dead := false
 		sawNUMA, sawCPU, sawShare, sawDup, sawTerminated, sawPodFinished, sawExclMismatchShape, sawSelfEvent, sawLate, sawResv := false, false, false, false, false, false, false, false, false, false
 		maxLive, checks := 0, 0
+		sawDeleted := false
 
 		bound := func() []types.UID {
 			var out []types.UID
@@ -944,6 +945,7 @@ func TestVerifC19NUMAReplay(t *testing.T) {
 				deletedHow[u] = how
 				delete(persisted, u)
 				delete(model, u)
+				sawDeleted = true
 				hist = append(hist, fmt.Sprintf("delete %s (%s)", u, how))
 			},
 			// A pod that finishes (phase Succeeded/Failed) leaves the scheduler's pod informer, which carries the field
@@ -1044,6 +1046,7 @@ func TestVerifC19NUMAReplay(t *testing.T) {
 		c.ClassIf(sawDup, "duplicate-or-noop-event")
 		c.ClassIf(sawTerminated, "finished-reservation-persisted")
 		c.ClassIf(sawPodFinished, "pod-finished(delivered-as-delete)")
+		c.ClassIf(sawDeleted, "object-deleted")
 		c.ClassIf(sawSelfEvent, "live-saw-own-bind-event")
 		c.ClassIf(sawExclMismatchShape, "cpuset-for-non-LSR/LSE-pod(node policy)")
 		c.ClassIf(sawLate, "pod-event-before-topology")
